@@ -175,6 +175,8 @@ func (s *Store[H]) deleteParallel(ctx context.Context, from, to uint64) (uint64,
 			last.height = height
 			last.err = s.deleteSingle(workerCtx, height, onDelete)
 			if errors.Is(last.err, datastore.ErrNotFound) {
+				// not an error: the header is already gone, e.g. deleted by an earlier partial attempt
+				last.err = nil
 				last.missing++
 				log.Debugw("attempt to delete header that's not found", "height", height)
 			} else if last.err != nil {
